@@ -123,6 +123,51 @@ func init() {
 				}}
 		}
 	}
+	// A leadership-transfer target is cut off right after it handled TimeoutNow. Its transfer round (one term, no
+	// pre-vote) fails; from then on it must fall back to pre-votes, so its term stays where that round left it.
+	// (After the heal the higher term legitimately deposes the leader: only the isolated phase is judged.)
+	regScenario("prevote3-transfer", func() *Scenario {
+		return &Scenario{Nodes: voters(3), Timed: true, Devs: DevStepEarly, Horizon: 6000,
+			Goal: func(w *World) bool { return w.vals["healed"] == 1 && w.now() >= w.tvals["heal"]+300*time.Millisecond },
+			Steps: []Step{
+				stepDo("set-extras", nil, func(w *World) { setExtras(w, []int{0, 2, 1}) }),
+				earlyStep("transfer", func(w *World) bool { return w.now() >= 1*time.Second && w.stableLeader() != nil }, func(w *World) {
+					l := w.leader()
+					var v *Node
+					for _, o := range w.nodes {
+						if o != l && o.up {
+							v = o
+						}
+					}
+					w.vals["victim"] = v.id
+					w.vals["picked"] = 1
+					w.transfer(l, v.id)
+				}),
+				urgent(stepDo("isolate-target-after-timeoutnow", func(w *World) bool {
+					if w.vals["picked"] != 1 {
+						return false
+					}
+					for _, m := range w.live {
+						if m.Kind == "TN" && m.To == w.vals["victim"] && m.St == mDelivered {
+							return true
+						}
+					}
+					return false
+				}, func(w *World) {
+					v := w.nodes[w.vals["victim"]]
+					w.isolate(v.id, true)
+					w.tvals["iso"] = w.now()
+					w.vals["isolated"] = 1
+					w.mon.prevote2 = &prevoteState{node: v.id, inc: v.inc, term: v.r.CurrentTerm(), leader: -1}
+				})),
+				stepDo("heal", func(w *World) bool { return w.vals["isolated"] == 1 && w.now() >= w.tvals["iso"]+6*tElection }, func(w *World) {
+					w.isolate(w.vals["victim"], false)
+					w.vals["healed"] = 1
+					w.tvals["heal"] = w.now()
+					w.mon.prevote2.healed = true
+				}),
+			}}
+	})
 	// a demoted voter is isolated: it has no vote, must not campaign, and must not disturb the rest on return
 	regScenario("prevote4-demoted", func() *Scenario {
 		sc := mkPrevote(4, false, 5*tElection, false)()
